@@ -44,10 +44,10 @@ type finding struct {
 }
 
 type mon struct {
-	r        *vf.Run
-	finds    map[string]*finding
-	order    []string
-	values   int
+	r      *vf.Run
+	finds  map[string]*finding
+	order  []string
+	values int
 }
 
 func (m *mon) get(sig, what string) *finding {
